@@ -16,7 +16,8 @@ def run(rec):
     if c is None:
         return {'error': 'contract not found'}
     recipes = getattr(cm, 'RECIPES', {})
-    args = {k: runtime.from_json(v, recipes) for k, v in rec['inputs'].items()}
+    refs = {}
+    args = {k: runtime.from_json(v, recipes, refs) for k, v in rec['inputs'].items()}
     r = runtime.check_call(c, args, only=[rec['clause']] if rec.get('clause') else None)
     out = {'pre': r['pre'], 'failed': r['failed'], 'checked': r['checked']}
     if r['outcome'] is not None:
